@@ -289,7 +289,12 @@ impl LevelManifest {
 			levels_vec.len()
 		);
 
-		// Validate last_sequence matches the maximum sequence number across all tables
+		// Validate last_sequence against the maximum sequence number across all tables.
+		// last_sequence is the highest sequence number ever written to a table; the
+		// tables present now may all be below it, because compaction discards entries
+		// (a delete dropped at the last level takes the newest sequence number of the
+		// store with it, a level may end up empty). Only a table holding something
+		// newer than last_sequence is inconsistent.
 		let computed_max_seq = levels_vec
 			.iter()
 			.flat_map(|level| level.tables.iter())
@@ -297,7 +302,7 @@ impl LevelManifest {
 			.max()
 			.unwrap_or(0);
 
-		if computed_max_seq != last_sequence {
+		if computed_max_seq > last_sequence {
 			return Err(Error::LoadManifestFail(format!(
 				"Manifest last_sequence mismatch: stored={}, computed from tables={}",
 				last_sequence, computed_max_seq
@@ -316,7 +321,7 @@ impl LevelManifest {
 		})
 	}
 
-	fn validate_table_sequence_numbers(level_idx: u8, tables: &[Arc<Table>]) -> Result<()> {
+	fn validate_table_sequence_numbers(_level_idx: u8, tables: &[Arc<Table>]) -> Result<()> {
 		// Basic sanity check for all tables
 		for table in tables {
 			// Ensure both sequence numbers exist (they should always be set together)
@@ -346,28 +351,9 @@ impl LevelManifest {
 			}
 		}
 
-		// If we have multiple tables, check sequence continuity across all tables
-		if tables.len() > 1 {
-			for i in 0..tables.len() - 1 {
-				let current = &tables[i];
-				let next = &tables[i + 1];
-
-				// Check if sequence numbers maintain continuity
-				if let (Some(next_smallest), Some(current_largest)) =
-					(next.meta.smallest_seq_num, current.meta.largest_seq_num)
-				{
-					if next_smallest <= current_largest {
-						return Err(Error::LoadManifestFail(format!(
-							"Level {} tables have overlapping sequence numbers: Table {} ({:?}-{:?}) and Table {} ({:?}-{:?})",
-							level_idx,
-							current.id, current.meta.smallest_seq_num, current.meta.largest_seq_num,
-							next.id, next.meta.smallest_seq_num, next.meta.largest_seq_num
-						)));
-					}
-				}
-			}
-		}
-
+		// Tables of a level >= 1 are ordered by key and cover disjoint key ranges;
+		// their sequence number ranges are unrelated (each compaction output holds
+		// whatever versions its key range had) and may overlap in any way.
 		Ok(())
 	}
 
